@@ -654,7 +654,11 @@ class AbstractFormat:
             return False
         if other.neg_bound > self.neg_bound:
             return False
-        # 3. precision — only constraining when other has a finite normal region
+        # 3. precision
+        if not isinstance(other.prec, float) and isinstance(other.exp, float):
+            # no subnormal region at all: other's precision binds everywhere
+            if self.prec > other.prec:
+                return False
         if not isinstance(other.prec, float) and not isinstance(other.exp, float):
             if self.prec > other.prec:
                 # easy check failed: other's spacing in its normal region widens faster.
